@@ -8,7 +8,8 @@ for d in sorted(glob.glob(os.path.join(V, '*', 'meta.json'))):
     name = os.path.basename(os.path.dirname(d))
     det = m.get('detected_by') or []
     rows.append('| %s | %s | %s | %s | %s | %s |' % (name, m['property'], m['change'], m['needs_to_manifest'],
-                                                       ', '.join(det) if det else 'MISSED', m.get('first_run', 'detected')))
+                                                       ', '.join(det) if det else ('superseded (see notes)' if m.get('superseded') else 'MISSED'),
+                                                       m.get('first_run', 'detected')))
 head = ['# Seeded breaking changes (written by sub-agents that saw only the property text and a scratch worktree)\n',
         'Each directory holds patch.diff (applies to the /repo HEAD it was written against), the agent\'s demonstration, its NOTES.md,',
         'result.json (demonstration exit codes without / with the patch, and our check\'s exit code) and meta.json.',
